@@ -112,8 +112,8 @@ Definition try_send (t : table) (a : addr) (ty : N) (m : list N) (now : N) : tab
   else (store t2 a (with_flow v (n_used v) (n_resp v) (n_held v ++ [(ty, m)])), false).
 
 (* ---- bidib_node_try_queued_messages: returns the messages handed to bidib_add_to_buffer ---- *)
-Fixpoint try_queued_loop (fuel : nat) (t : table) (a : addr) (now : N) (acc : list (list N))
-  : table * list (list N) :=
+Fixpoint try_queued_loop (fuel : nat) (t : table) (a : addr) (now : N) (acc : list (N * list N))
+  : table * list (N * list N) :=
   match fuel with
   | O => (t, acc)
   | S f =>
@@ -125,7 +125,7 @@ Fixpoint try_queued_loop (fuel : nat) (t : table) (a : addr) (now : N) (acc : li
         | (ty, m) :: rest =>
             if n_used v + resp_size ty <=? response_limit then
               let v1 := add_response (with_flow v (n_used v) (n_resp v) rest) ty now in
-              try_queued_loop f (store t1 a v1) a now (acc ++ [m])
+              try_queued_loop f (store t1 a v1) a now (acc ++ [(ty, m)])
             else (t1, acc)
         end
       else (t1, acc)
@@ -134,14 +134,14 @@ Fixpoint try_queued_loop (fuel : nat) (t : table) (a : addr) (now : N) (acc : li
 (* one extra round of fuel: the loop condition is evaluated once more after the last message.
    A release group (a, ms): the messages of node a handed to bidib_add_to_buffer in this call,
    followed by one bidib_flush when there is at least one. *)
-Definition group := (list N * list (list N))%type.
+Definition group := (list N * list (N * list N))%type.   (* node, released (type, message) entries *)
 
 Definition try_queued (t : table) (a : addr) (now : N) : table * list group :=
   let '(t1, ms) := try_queued_loop (S (length (n_held (get t a)))) t a now [] in
   (t1, [(a, ms)]).
 
 Definition group_ops (g : group) : list op :=
-  map Add (snd g) ++ match snd g with [] => [] | _ => [Flush] end.
+  map (fun e => Add (snd e)) (snd g) ++ match snd g with [] => [] | _ => [Flush] end.
 Definition groups_ops (gs : list group) : list op := flat_map group_ops gs.
 
 (* ---- bidib_node_state_update ---- *)
